@@ -62,6 +62,7 @@ package formatter
 //@   loop 1 invariant forall e int :: 0 <= e && e < len(edits) && tx.Postings[e].Range.Start.Line - 1 < NL(mapper.content) ==> edits[e].Range.End.Character == lineU16(mapper.content, tx.Postings[e].Range.Start.Line - 1)
 //@   loop 1 invariant forall e int :: 0 <= e && e < len(edits) ==> edits[e].Range.Start.Line == tx.Postings[e].Range.Start.Line - 1 && edits[e].Range.End.Line == edits[e].Range.Start.Line && edits[e].Range.Start.Character == 0 && edits[e].Range.End.Character >= 0
 
+//@ specdef lineStr(c string, k int) string := substr(c, LS(c, k), LE(c, k))
 //@ specdef lineU16(c string, k int) int := u16(substr(c, LS(c, k), LE(c, k)), LE(c, k) - LS(c, k))
 
 //@ pred MapOK(m, c) := m != nil && m.content == c && len(m.lines) == NL(c) && len(m.lineStarts) == len(m.lines) && (forall k int :: 0 <= k && k < len(m.lines) ==> m.lines[k] == substr(c, LS(c, k), LE(c, k)) && m.lineStarts[k] == LS(c, k))
@@ -73,8 +74,10 @@ package formatter
 //@   requires MapOK(mapper, content) && len(content) < 4294967295
 //@   ensures [C04,C05:trim_shape] forall e int :: 0 <= e && e < len(result) ==> result[e].NewText == "" && result[e].Range.Start.Line == result[e].Range.End.Line && !postingLines[result[e].Range.Start.Line] && result[e].Range.Start.Line < NL(content)
 //@   ensures [C04,C05:trim_to_line_end] forall e int :: 0 <= e && e < len(result) ==> result[e].Range.End.Character == lineU16(content, result[e].Range.Start.Line)
+//@   ensures [C04,C05:trim_start] forall e int :: 0 <= e && e < len(result) ==> result[e].Range.Start.Character == u16(substr(lineStr(content, result[e].Range.Start.Line), 0, trimright(lineStr(content, result[e].Range.Start.Line), " \t")), trimright(lineStr(content, result[e].Range.Start.Line), " \t"))
 //@   loop 1 invariant 0 - 1 <= rangeindex && rangeindex <= len(lines) - 1 && len(lines) == NL(content)
 //@   loop 1 invariant forall e int :: 0 <= e && e < len(edits) ==> edits[e].Range.End.Character == lineU16(content, edits[e].Range.Start.Line)
+//@   loop 1 invariant forall e int :: 0 <= e && e < len(edits) ==> edits[e].Range.Start.Character == u16(substr(lineStr(content, edits[e].Range.Start.Line), 0, trimright(lineStr(content, edits[e].Range.Start.Line), " \t")), trimright(lineStr(content, edits[e].Range.Start.Line), " \t"))
 //@   loop 1 invariant forall e int :: 0 <= e && e < len(edits) ==> edits[e].NewText == "" && edits[e].Range.Start.Line == edits[e].Range.End.Line && !postingLines[edits[e].Range.Start.Line] && edits[e].Range.Start.Line < NL(content)
 
 //@ pred JournalLinesOK(j) := forall i int, k int :: {j.Transactions[i].Postings[k]} 0 <= i && i < len(j.Transactions) && 0 <= k && k < len(j.Transactions[i].Postings) ==> j.Transactions[i].Postings[k].Range.Start.Line >= 1 && j.Transactions[i].Postings[k].Range.Start.Line <= 4294967295
